@@ -323,7 +323,7 @@ impl Monitor for C08 {
         ]
     }
     fn rule(&self) -> &'static str {
-        "12 directed histories (all orders of {increase, decrease, two-message spend} one block before and exactly at the expiry) then seeded random histories on cw1-subkeys with 3 denominations, multi-coin / multi-message sends, grants and decreases with all expiry kinds and block advances onto expiry boundaries; after every call the stored allowances of all pool subkeys are read back and compared with an exact per-denomination deduction model and a cumulative granted/spent ledger. distinct = (op class, outcome, model reason, has bank send?, several sends?, allowance missing/expired/live) and (grant kind, outcome, admin?, previous expired?, existed?, expiry given?)"
+        "12 directed histories (all orders of {increase, decrease, two-message spend} one block before and exactly at the expiry) then seeded random histories on cw1-subkeys with 3 denominations, multi-coin / multi-message sends, grants and decreases with all expiry kinds and block advances onto expiry boundaries; after every call the stored allowances of all pool subkeys are read back and compared with an exact per-denomination deduction model and a cumulative granted/spent ledger; Allowance, AllAllowances, Permissions and AllPermissions (through the query entry point) must show exactly the stored, unexpired grants; every third history is upgraded in mid-life through the real migrate. distinct = (op class, outcome, model reason, has bank send?, several sends?, allowance missing/expired/live) and (grant kind, outcome, admin?, previous expired?, existed?, expiry given?)"
     }
     fn assumptions(&self) -> Vec<&'static str> {
         vec![
